@@ -1,4 +1,7 @@
 import Proofs.Diff
+import Proofs.Converse
+import Proofs.IgnoreOrder
+import Proofs.HashComplete
 import Model.Diff.Text
 import Model.Hash.Prep
 /-!
@@ -51,6 +54,61 @@ theorem C02_N_spoof_set (al : Align) (H : String → String) :
     simp [diffSet, hh]
   have hskip : skipSteps {} [] = false := by decide
   simp [deepDiff, hskip, diffV, hs, keepReported, mutualAddRemoves]
+
+/-- **Empty ⇒ equal.** In the ordered model without path restrictions: if the result is empty, the two
+values are equal in the sense of Python's `==` (`pyEq`) — for both alignment modes, every threshold,
+every sound difflib oracle (`AlignSound`: an all-`equal` answer is right), any size and nesting.
+Domain (`domE`): dictionary keys pairwise different, hashable, from a universe `K` on which `==` is
+identity (NoNumAlias) and that holds no ignored private key; sets without repeated members, from a
+universe `S` on which the item hash is injective (discharged for DeepHash below). -/
+theorem C02_empty_implies_equal (cfg : DCfg) (hp : Plain cfg) (al : Align) (hal : AlignSound al) (hashOf : PyVal → String)
+    (K S : List PyVal) (hK : StrictKeys K) (hpriv : ∀ k ∈ K, (cfg.ignorePrivate && isPrivate k) = false)
+    (hS : ∀ x ∈ S, hashable x = true ∧ ∀ y ∈ S, hashOf x = hashOf y → x = y)
+    (t1 t2 : PyVal) (d1 : domE K S t1) (d2 : domE K S t2) (h : (deepDiff cfg al hashOf t1 t2).tree = []) :
+    pyEq t1 t2 = true := by
+  unfold deepDiff at h
+  simp only [skipSteps_plain hp, Bool.false_eq_true, if_false, keepReported_plain hp] at h
+  split at h
+  · exact conv_V hp al hal hashOf K S hK hpriv hS t1 t2 [] d1 d2 h
+  · exact conv_V hp al hal hashOf K S hK hpriv hS t1 t2 [] d1 d2 ((mutualAddRemoves_nil_iff _).1 h)
+
+/-- the item hash of `_diff_set` is injective on scalars inside NoSpoof: the hypothesis `hS` of
+`C02_empty_implies_equal` holds for the DeepHash model with any injective hasher -/
+theorem C02_set_members_deephash (c : DiffIO.IOCfg) (H : String → String) (hinj : Function.Injective H) (S : List PyVal)
+    (hSok : ∀ x ∈ S, isBasic x = true ∧ (∀ s, x = .str s → DiffIO.noSpoofS s) ∧ (∀ n s, x = .float n s → DiffIO.canonFloat n s)) :
+    ∀ x ∈ S, hashable x = true ∧ ∀ y ∈ S, DiffIO.dh c H x = DiffIO.dh c H y → x = y := by
+  intro x hx
+  obtain ⟨hb, hs, hf⟩ := hSok x hx
+  refine ⟨by cases x <;> simp_all [isBasic, hashable], ?_⟩
+  intro y hy he
+  obtain ⟨hb', hs', hf'⟩ := hSok y hy
+  exact DiffIO.dh_leaf_inj c H hinj DiffIO.reprInj x y hb hb' hs hs' hf hf' he
+
+/-- **empty ⇔ equal for copies and conversely**: with `C02_copy_empty`, on the domain the ordered diff of
+`t1` with `t2` is empty only if `t1 == t2`, and the diff of a value with itself is empty. -/
+theorem C02_empty_implies_equal_deephash (cfg : DCfg) (hp : Plain cfg) (al : Align) (hal : AlignSound al)
+    (c : DiffIO.IOCfg) (H : String → String) (hinj : Function.Injective H)
+    (K S : List PyVal) (hK : StrictKeys K) (hpriv : ∀ k ∈ K, (cfg.ignorePrivate && isPrivate k) = false)
+    (hSok : ∀ x ∈ S, isBasic x = true ∧ (∀ s, x = .str s → DiffIO.noSpoofS s) ∧ (∀ n s, x = .float n s → DiffIO.canonFloat n s))
+    (t1 t2 : PyVal) (d1 : domE K S t1) (d2 : domE K S t2) (h : (deepDiff cfg al (DiffIO.dh c H) t1 t2).tree = []) :
+    pyEq t1 t2 = true :=
+  C02_empty_implies_equal cfg hp al hal (DiffIO.dh c H) K S hK hpriv (C02_set_members_deephash c H hinj S hSok) t1 t2 d1 d2 h
+
+/-! Non-vacuity: a configuration, a key universe, a member universe and a nested value of the domain. -/
+example : Plain {} := ⟨rfl, rfl, rfl⟩
+example : domE [.str "a", .int 2] [.str "x", .int 1]
+    (.dict [(.str "a", .list [.int 1, .tuple [.none, .float 15 1]]), (.int 2, .set [.str "x", .int 1])]) := by
+  simp [domE, domEP, domEL, distinctKeys, keyEq, numEq, numOf, hashable]
+example : StrictKeys [.str "a", .int 2] := by
+  intro k hk k' hk' h
+  simp at hk hk'
+  rcases hk with rfl | rfl <;> rcases hk' with rfl | rfl <;> simp_all [keyEq, numEq, numOf]
+/-- an alignment oracle that satisfies `AlignSound`: the one that answers with a single `replace`
+block (then the pairwise comparison decides) -/
+example : AlignSound (fun xs ys => [⟨"replace", 0, xs.length, 0, ys.length⟩]) := by
+  intro steps xs ys hx hy h
+  simp only [opcodeEntries, beq_self_eq_true, if_true, List.append_nil, Nat.sub_zero, List.drop_zero, List.take_length] at h
+  exact pairBasic_nil steps 0 xs ys hx hy h
 
 /-! Non-vacuity: a nested value that satisfies `wf`. -/
 example : wf (.dict [(.str "a", .list [.int 1, .tuple [.none, .float 15 1]]), (.int 2, .set [.str "x", .bool true])]) = true := by
